@@ -65,7 +65,14 @@ impl ProcessorState {
     pub(crate) fn signal_shutdown(&self) {
         // Release ordering ensures all prior task queue operations are visible to workers
         // before they observe the shutdown flag.
+        #[cfg(folo_verif)]
+        crate::verif::point("sig.flag", 0);
+
         self.shutdown_flag.store(true, Ordering::Release);
+
+        #[cfg(folo_verif)]
+        crate::verif::point("sig.notify", 0);
+
         self.wake_event.notify(usize::MAX);
     }
 
